@@ -37,7 +37,9 @@ def native_replay(crate_dir, runner, spec, prop):
     """Re-run the failing harness with concrete playback, then execute the generated test natively
     (dev profile, and release profile) against the same scratch copy of the crate.
     Returns (reproduced: bool, replay_path, text)"""
-    r = runner.run_one(spec.fq, timeout=spec.timeout, extra=(spec.extra_args or []) + ["-Z", "concrete-playback", "--concrete-playback=print"])
+    # trace generation and Kani's processing of the trace need far more time and memory than the verdict run (observed: 100 s / 3 GB
+    # for the verdict, 800 s and > 12 GB of address space for the playback of a 2M-variable instance); replays run one at a time
+    r = runner.run_one(spec.fq, timeout=max(spec.timeout or 0, 2400), mem_gb=40, extra=(spec.extra_args or []) + ["-Z", "concrete-playback", "--concrete-playback=print"])
     os.makedirs(os.path.join(REPLAY_DIR, prop), exist_ok=True)
     path = os.path.join(REPLAY_DIR, prop, spec.fq.replace("::", "__") + ".txt")
     # Kani prints one unit test per failed check / satisfied cover; keep those of failed checks, dedupe by name
